@@ -1438,4 +1438,4 @@ RULE = ('algebra: finite MPOs (L <= 5; spin-1/2, fermions; with/without charges)
         'the exact light cone; ext_ienv: entangled iMPS: expectation_value / _TM / _power against the reduced density matrix, MPOEnvironment with '
         'force_init_method iter / TM / None / start_env_sites, MPOTransferMatrix.find_init_LP_RP (calc_E, guess, both gauges), '
         'MPOEnvironmentBuilder energies; ext_opts: exponentially decaying iMPO from grids (TM for max_range None / inf, power method incl. the '
-        'tolerance warning, to_TermList max_range / cutoff / start, prefactor), eps options of is_equal / is_hermitian, 24 documented refusals.')
+        'tolerance warning, to_TermList max_range / cutoff / start, prefactor), eps options of is_equal / is_hermitian, a one-site chain, 31 documented refusals.')
